@@ -8,6 +8,7 @@
 
 #include "spec.h"
 
+/* V_TWIN (concrete-search twin): same code, same contracts, no loop contracts (loops are unwound instead) */
 #define CAT_VERIF_LOOP(id)  CAT_VERIF_LOOP_##id
 #define CAT_VERIF_GHOST(id) CAT_VERIF_GHOST_##id
 
@@ -18,14 +19,14 @@
 
 /* ---- numeric decoders: saturating Horner ghost over the argument text ---- */
 /* the digit is read from the text itself at the position just consumed, not from a local */
-#define CAT_VERIF_GHOST_parse_uint_decimal_digit \
+#define CAT_VERIF_GHOST_ON_parse_uint_decimal_digit \
         { g_sat = V_SAT(g_sat * 10ULL + (unsigned long long)(V_BUF[V_POS - 1] - '0')); g_ndig++; }
-#define CAT_VERIF_GHOST_parse_int_decimal_digit \
+#define CAT_VERIF_GHOST_ON_parse_int_decimal_digit \
         { g_sat = V_SAT(g_sat * 10ULL + (unsigned long long)(V_BUF[V_POS - 1] - '0')); g_ndig++; }
-#define CAT_VERIF_GHOST_parse_num_hexadecimal_digit \
+#define CAT_VERIF_GHOST_ON_parse_num_hexadecimal_digit \
         { g_sat = V_SAT(g_sat * 16ULL + (unsigned long long)V_HEXVAL(V_BUF[V_POS - 1])); g_ndig++; }
 
-#define CAT_VERIF_LOOP_parse_uint_decimal \
+#define CAT_VERIF_LOOP_ON_parse_uint_decimal \
         __CPROVER_assigns(self->position, ch, val, ok, g_sat, g_ndig) \
         __CPROVER_loop_invariant(V_POS0 <= V_POS && V_POS <= g_len) \
         __CPROVER_loop_invariant(g_ndig == V_POS - V_POS0) \
@@ -36,7 +37,7 @@
 
 /* signed decimal: optional sign, digits; val holds the magnitude, sign applied at the end */
 #define V_SC0        (V_ISSIGN(V_BUF[V_POS0]) ? 1 : 0)
-#define CAT_VERIF_LOOP_parse_int_decimal \
+#define CAT_VERIF_LOOP_ON_parse_int_decimal \
         __CPROVER_assigns(self->position, ch, val, sign, ok, *ret, g_sat, g_ndig) \
         __CPROVER_loop_invariant(V_POS0 <= V_POS && V_POS <= g_len) \
         __CPROVER_loop_invariant((sign == 0) == (V_POS == V_POS0)) \
@@ -49,7 +50,7 @@
         __CPROVER_decreases(g_len - V_POS)
 
 /* 0x / 0X prefix then hex digits in either case */
-#define CAT_VERIF_LOOP_parse_num_hexadecimal \
+#define CAT_VERIF_LOOP_ON_parse_num_hexadecimal \
         __CPROVER_assigns(self->position, ch, val, state, *ret, g_sat, g_ndig) \
         __CPROVER_loop_invariant(V_POS0 <= V_POS && V_POS <= g_len) \
         __CPROVER_loop_invariant(0 <= state && state <= 3) \
@@ -64,7 +65,7 @@
 /* byte buffer as pairs of hex digits; V_DATA is the variable's storage */
 #define V_DATA       ((uint8_t *)(self->var->data))
 #define V_NOTRO      (self->var->access != CAT_VAR_ACCESS_READ_ONLY)
-#define CAT_VERIF_LOOP_parse_buffer_hexadecimal \
+#define CAT_VERIF_LOOP_ON_parse_buffer_hexadecimal \
         __CPROVER_assigns(self->position, ch, byte, state, size, self->write_size, __CPROVER_object_upto(self->var->data, self->var->data_size)) \
         __CPROVER_loop_invariant(V_POS0 <= V_POS && V_POS <= g_len) \
         __CPROVER_loop_invariant((state == 0 || state == 1) && size <= self->var->data_size) \
@@ -76,9 +77,9 @@
         __CPROVER_decreases(g_len - V_POS)
 
 /* quoted string with escapes: automaton state 0 (expect quote) 1 (inside) 2 (after backslash) 3 (after closing quote) */
-#define CAT_VERIF_GHOST_parse_buffer_string_store \
+#define CAT_VERIF_GHOST_ON_parse_buffer_string_store \
         { if (size == g_j) { g_src = V_POS - 1; g_esc = (state == 2); } g_size = size + 1; if (state == 2) g_nesc++; }
-#define CAT_VERIF_LOOP_parse_buffer_string \
+#define CAT_VERIF_LOOP_ON_parse_buffer_string \
         __CPROVER_assigns(self->position, ch, state, size, self->write_size, g_size, g_nesc, g_src, g_esc, __CPROVER_object_upto(self->var->data, self->var->data_size)) \
         __CPROVER_loop_invariant(V_POS0 <= V_POS && V_POS <= g_len) \
         __CPROVER_loop_invariant(0 <= state && state <= 3 && (state == 0) == (V_POS == V_POS0)) \
@@ -109,18 +110,78 @@
 #define F_CAP        (fsm == CAT_FSM_TYPE_ATCMD ? CAP_AT(self) : CAP_UN(self))
 #define F_BUF        (fsm == CAT_FSM_TYPE_ATCMD ? ABUF(self) : UBUF(self))
 #define F_ASSIGNS    FMT_ASSIGNS
-#define CAT_VERIF_LOOP_format_buffer_hexadecimal \
+#define CAT_VERIF_LOOP_ON_format_buffer_hexadecimal \
         __CPROVER_assigns(i, val; F_ASSIGNS) \
         __CPROVER_loop_invariant(i <= var->data_size && F_POS == F_POS0 + 2 * i && F_POS <= F_CAP) \
         __CPROVER_loop_invariant(i > 0 ==> (F_POS < F_CAP && F_BUF[F_POS] == 0)) \
         __CPROVER_loop_invariant((g_j < i) ==> (F_BUF[F_POS0 + 2 * g_j] == HEXCH(VBYTE(var, g_j) >> 4) && F_BUF[F_POS0 + 2 * g_j + 1] == HEXCH(VBYTE(var, g_j) & 15))) \
         __CPROVER_loop_invariant((g_k < F_POS0) ==> F_BUF[g_k] == g_oldtext) \
         __CPROVER_decreases(var->data_size - i)
-#define CAT_VERIF_LOOP_format_buffer_string \
+#define CAT_VERIF_LOOP_ON_format_buffer_string \
         __CPROVER_assigns(i, ch; F_ASSIGNS) \
         __CPROVER_loop_invariant(i <= buf_size && F_POS0 >= 1 && F_POS >= F_POS0 && F_POS < F_CAP && F_BUF[F_POS] == 0 && F_BUF[F_POS0 - 1] == '"') \
         __CPROVER_loop_invariant((g_k + 1 < F_POS0) ==> F_BUF[g_k] == g_oldtext) \
         __CPROVER_decreases(buf_size - i)
+
+
+/* A loop contract (and the ghost updates it talks about) is active only in the proof unit of its own
+ * function (-DV_LOOP_<function>): an invariant that names a local which a change has removed then breaks
+ * that one unit, not every unit that merely includes cat.c. */
+#if defined(V_LOOP_parse_uint_decimal) && !defined(V_TWIN)
+#define CAT_VERIF_LOOP_parse_uint_decimal CAT_VERIF_LOOP_ON_parse_uint_decimal
+#else
+#define CAT_VERIF_LOOP_parse_uint_decimal
+#endif
+#if defined(V_LOOP_parse_int_decimal) && !defined(V_TWIN)
+#define CAT_VERIF_LOOP_parse_int_decimal CAT_VERIF_LOOP_ON_parse_int_decimal
+#else
+#define CAT_VERIF_LOOP_parse_int_decimal
+#endif
+#if defined(V_LOOP_parse_num_hexadecimal) && !defined(V_TWIN)
+#define CAT_VERIF_LOOP_parse_num_hexadecimal CAT_VERIF_LOOP_ON_parse_num_hexadecimal
+#else
+#define CAT_VERIF_LOOP_parse_num_hexadecimal
+#endif
+#if defined(V_LOOP_parse_buffer_hexadecimal) && !defined(V_TWIN)
+#define CAT_VERIF_LOOP_parse_buffer_hexadecimal CAT_VERIF_LOOP_ON_parse_buffer_hexadecimal
+#else
+#define CAT_VERIF_LOOP_parse_buffer_hexadecimal
+#endif
+#if defined(V_LOOP_parse_buffer_string) && !defined(V_TWIN)
+#define CAT_VERIF_LOOP_parse_buffer_string CAT_VERIF_LOOP_ON_parse_buffer_string
+#else
+#define CAT_VERIF_LOOP_parse_buffer_string
+#endif
+#if defined(V_LOOP_format_buffer_hexadecimal) && !defined(V_TWIN)
+#define CAT_VERIF_LOOP_format_buffer_hexadecimal CAT_VERIF_LOOP_ON_format_buffer_hexadecimal
+#else
+#define CAT_VERIF_LOOP_format_buffer_hexadecimal
+#endif
+#if defined(V_LOOP_format_buffer_string) && !defined(V_TWIN)
+#define CAT_VERIF_LOOP_format_buffer_string CAT_VERIF_LOOP_ON_format_buffer_string
+#else
+#define CAT_VERIF_LOOP_format_buffer_string
+#endif
+#if defined(V_LOOP_parse_uint_decimal)
+#define CAT_VERIF_GHOST_parse_uint_decimal_digit CAT_VERIF_GHOST_ON_parse_uint_decimal_digit
+#else
+#define CAT_VERIF_GHOST_parse_uint_decimal_digit
+#endif
+#if defined(V_LOOP_parse_int_decimal)
+#define CAT_VERIF_GHOST_parse_int_decimal_digit CAT_VERIF_GHOST_ON_parse_int_decimal_digit
+#else
+#define CAT_VERIF_GHOST_parse_int_decimal_digit
+#endif
+#if defined(V_LOOP_parse_num_hexadecimal)
+#define CAT_VERIF_GHOST_parse_num_hexadecimal_digit CAT_VERIF_GHOST_ON_parse_num_hexadecimal_digit
+#else
+#define CAT_VERIF_GHOST_parse_num_hexadecimal_digit
+#endif
+#if defined(V_LOOP_parse_buffer_string)
+#define CAT_VERIF_GHOST_parse_buffer_string_store CAT_VERIF_GHOST_ON_parse_buffer_string_store
+#else
+#define CAT_VERIF_GHOST_parse_buffer_string_store
+#endif
 
 /* placeholders (filled in below as each loop is brought under contract) */
 #define CAT_VERIF_LOOP_is_variables_access_possible
